@@ -4,6 +4,8 @@ import sys, subprocess, collections, json, os
 prop = sys.argv[1]; seed = sys.argv[2] if len(sys.argv) > 2 else "1"; tier = sys.argv[3] if len(sys.argv) > 3 else "quick"
 d = f"/verif/work/dev-{prop}"
 os.makedirs(d, exist_ok=True)
+subprocess.run(["python3", "/verif/tools/extract.py"], check=True, stdout=subprocess.DEVNULL)
+subprocess.run(["lake", "build", "driver"], cwd="/verif/lean", check=True, stdout=subprocess.DEVNULL)
 r = subprocess.run(["cargo","build","--offline"], cwd="/verif/harness", env=dict(os.environ, RUSTFLAGS="--cfg candid_verif", RUSTUP_TOOLCHAIN="stable-x86_64-unknown-linux-gnu"), capture_output=True, text=True)
 if r.returncode != 0:
     print(r.stderr[-3000:]); sys.exit(1)
